@@ -3,7 +3,6 @@
 
 pub uninterp spec fn pwb_known_mac(m: Seq<u8>) -> bool;     // membership in the documented PadWing board table (A-MAPS; Kani: complete)
 
-pub open spec fn lei16(s: Seq<u8>, o: int) -> int { let v = s[o] as int + 256 * (s[o + 1] as int); if v >= 32768 { v - 65536 } else { v } }
 
 // ---- 80-bit channel masks
 pub open spec fn bit(m: u128, i: nat) -> bool { (m >> (i as u128)) & 1 == 1 }
